@@ -174,7 +174,13 @@ def build_nodes(prog, rng, host):
             nodes.append({"AST_node_type": "BOOLEAN_NODE", "AST_boolean_node_boolean": v})
             stack.append([("b", v)])
         elif nd == "d":
-            dt = datetime(2001, 1, 1) + timedelta(days=rng.randint(-30000, 30000))
+            if rng.random() < 0.5:
+                dt = datetime(2001, 1, 1) + timedelta(days=rng.randint(-30000, 30000))
+            else:
+                # calendar boundaries: the days around a new year (ISO week years differ from calendar years there), month ends, leap days
+                y = rng.choice([1900, 1999, 2000, 2001, 2004, 2016, 2020, 2021, 2024, 2025, 2026, 2027, 2032, 2100])
+                dt = rng.choice([datetime(y, 12, 29), datetime(y, 12, 30), datetime(y, 12, 31), datetime(y, 1, 1), datetime(y, 1, 2), datetime(y, 1, 3),
+                                 datetime(y, 2, 28), datetime(y, 3, 1) - timedelta(days=1), datetime(y, 3, 1), datetime(y, 6, 30), datetime(y, 10, 31)])
             nodes.append({"AST_node_type": "DATE_NODE", "AST_date_node_dateNum": float((dt - datetime(2001, 1, 1)).total_seconds())})
             stack.append([("d", (dt.year, dt.month, dt.day))])
         elif nd == "r":
@@ -309,8 +315,13 @@ def judge_case(ctx, prog, render, lits, text, text2, exc):
         return
     want_lits = [x for x in lits if x[0] != "op"]
     if got_lits != want_lits:
-        diff = next(((g, w) for g, w in zip(got_lits + [None], want_lits + [None]) if g != w), None)
-        big = bool(diff and diff[1] and diff[1][0] == "n" and "e+" in repr(float(diff[1][1])))
+        diffs = [(g, w) for g, w in zip(got_lits + [None] * len(want_lits), want_lits + [None] * len(got_lits)) if g != w]
+
+        def is_big(d):
+            return bool(d and d[1] and d[1][0] == "n" and "e+" in repr(float(d[1][1])))
+        # a literal of the kind recorded as F20 must not hide another wrong literal of the same formula
+        diff = next((d for d in diffs if not is_big(d)), diffs[0] if diffs else None)
+        big = is_big(diff)
         ctx.fail(dict(key, clause="literal", kind=(diff[1] or diff[0] or ("?",))[0] if diff else "?", float_repr="e+" if big else "plain"),
                  "program %s rendered as %r: literals %s, stored %s" % (" ".join(prog), text, str(diff[0])[:80], str(diff[1])[:80]), rp)
         return
@@ -335,9 +346,9 @@ def run(ctx):
             return True
         return False
     allops = ["eq", "cat", "add", "sub", "mul", "div", "pow"]
-    ctx.tlc("FormulaStack", cfg(["n", "s", "r"], allops, 5, 2, ["neg", "pct", "list"], emit=True), what="MC_FormulaStack[all operator classes, <=5 nodes]",
+    ctx.tlc("FormulaStack", cfg(["n", "s", "r", "d"], allops, 5, 2, ["neg", "pct", "list"], emit=True), what="MC_FormulaStack[all operator classes, <=5 nodes]",
             stream_to=handle, timeout=3000)
-    ctx.tlc("FormulaStack", cfg(["n", "b"], ["add", "mul", "cat"], 6 if q else 7, 3, ["call", "empty", "list", "arr", "neg"], emit=True),
+    ctx.tlc("FormulaStack", cfg(["n", "b", "d"], ["add", "mul", "cat"], 6 if q else 7, 3, ["call", "empty", "list", "arr", "neg"], emit=True),
             what="MC_FormulaStack[calls, lists, arrays, <=%d nodes]" % (6 if q else 7), stream_to=handle, timeout=6000)
     if not q:
         ctx.tlc("FormulaStack", cfg(["n", "d"], ["eq", "add", "pow"], 7, 2, ["neg", "pct", "list", "call"], emit=True), what="MC_FormulaStack[deep, <=7 nodes]",
